@@ -152,6 +152,16 @@ let handle kind a =
        | FErr -> Some "Err"
        | FPanic -> Some "Panic"
        | FUnsupported -> Some "unsupported")
+  | "nme" ->
+      (match names_encode (bytes_of_hex a.(0)) with
+       | NmOk bs -> Some (long_obs bs)
+       | NmErr -> Some "Err"
+       | NmPanic -> Some "Panic")
+  | "nmd" ->
+      (match names_decode (bytes_of_hex a.(0)) with
+       | NmOk bs -> Some (long_obs bs)
+       | NmErr -> Some "Err"
+       | NmPanic -> Some "Panic")
   | _ -> None
 
 let () = run_driver handle
